@@ -37,6 +37,10 @@ def placements(big=False):
                         slots.append(_slot('node%02d' % (n + 3), n + 3, list(range(r * cpr, r * cpr + cpr)),
                                            list(range(r * gpr, r * gpr + gpr))))
                 out.append(('%s ranks/node, %d cores, %d gpus per rank' % ('+'.join(map(str, shape)), cpr, gpr), slots))
+    # core sets with a hole (what a rank file has to spell out)
+    out.append(('2 ranks on one node, cores [0,1,4,5] and [2,3,6,7]',
+                [_slot('node03', 3, [0, 1, 4, 5]), _slot('node03', 3, [2, 3, 6, 7])]))
+    out.append(('1+1 ranks, cores [1,3,5] each', [_slot('node03', 3, [1, 3, 5]), _slot('node04', 4, [1, 3, 5])]))
     if big:
         for nn, per in ((43, 1), (50, 2), (45, 1)):
             slots = [_slot('n%03d' % n, n, [r]) for n in range(nn) for r in range(per)]
@@ -149,7 +153,21 @@ def read_cmd(kind, lm, cmd, task):
         n = int(_opt(cmd, '-np'))
         rf = _opt(cmd, '-rf')
         if rf:
-            hosts = Counter(re.findall(r'rank \d+=(\S+) ', open(rf).read()))
+            text = open(rf).read()
+            hosts = Counter(re.findall(r'rank \d+=(\S+) ', text))
+            # cores each rank is pinned to: comma lists and a-b ranges
+            pins = []
+            for m in re.finditer(r'rank (\d+)=(\S+) slots=(\S+)', text):
+                cs = set()
+                for part in m.group(3).split(','):
+                    if '-' in part:
+                        a, b = part.split('-'); cs |= set(range(int(a), int(b) + 1))
+                    else:
+                        cs.add(int(part))
+                pins.append((m.group(2), cs))
+            want = [(s_['node_name'], set(c['index'] for c in s_['cores'])) for s_ in task['slots']]
+            if pins != want:
+                return ('the rank file pins ranks to %s, the placement says %s' % (pins, want)), None
             return n, hosts
         hf = _opt(cmd, '--hostfile', '-f')
         hosts = Counter()
